@@ -548,6 +548,79 @@ theorem handlers_start_empty (dwid awid al pg nIrqs : Nat) (h : LocH ν) :
       exact ⟨hh.symm, by omega⟩
 
 
+/-! ## The CSR window on the bus (`SoC.add_csr_bridge`) contains every page the CSR handler can grant -/
+
+omit [DecidableEq ν] in
+/-- Page arithmetic with the real formulas: `n_locs = alignment//8 * 2**address_width // paging` (alignment 32)
+    pages of `paging` bytes starting at `csr_base` all lie inside `[csr_base, csr_base + 2**(address_width+2))`,
+    the extent of the `csr` bus region — for every paging (no divisibility needed) and address width. -/
+theorem csr_page_inside_csr_region (awid pg base k x : Nat) (hk : k < 32 / 8 * 2 ^ awid / pg)
+    (hx0 : base + pg * k ≤ x) (hx1 : x < base + pg * (k + 1)) :
+    (csrRegion base awid).InExtent x ∧ (csrRegion base awid).InWindow x := by
+  have h1 : pg * (k + 1) ≤ pg * (32 / 8 * 2 ^ awid / pg) := Nat.mul_le_mul_left pg hk
+  have h2 : pg * (32 / 8 * 2 ^ awid / pg) ≤ 32 / 8 * 2 ^ awid := Nat.mul_div_le _ _
+  have h3 : 32 / 8 * 2 ^ awid = 2 ^ (awid + 2) := by
+    rw [Nat.pow_succ, Nat.pow_succ]; omega
+  have hsz : (csrRegion base awid).size = 2 ^ (awid + 2) := rfl
+  have horg : (csrRegion base awid).origin = base := rfl
+  have hp2 := le_pow2ceil (csrRegion base awid).size
+  have hk0 : base ≤ x := by
+    have : 0 ≤ pg * k := Nat.zero_le _
+    omega
+  unfold Region.InExtent Region.InWindow Region.p2
+  rw [horg, hsz] at *
+  constructor <;> constructor <;> omega
+
+/-- Every page granted by a CSR handler — any data width 8/32, address width 14..18, paging, `reserved_csrs`,
+    any history of `add` / `address_map` requests with fixed, automatic and boundary locations — lies inside
+    the `csr` bus region of `add_csr_bridge`, hence is reachable through the `csr` slave. -/
+theorem csr_pages_inside_bus_region (dwid awid pg base : Nat) (reserved : List (ν × Int)) (h : LocH ν)
+    (ops : List (LocOp ν)) (hh : csrHandlerR ν dwid awid 32 pg reserved = .ok h) :
+    ∀ p ∈ (h.run ops).locs, ∃ k : Nat, p.2 = (k : Int) ∧
+      ∀ x, base + pg * k ≤ x → x < base + pg * (k + 1) → (csrRegion base awid).InExtent x := by
+  unfold csrHandlerR at hh
+  cases h0e : csrHandler ν dwid awid 32 pg with
+  | error e => simp [h0e] at hh
+  | ok h0 =>
+    simp only [h0e] at hh
+    have e0 := (handlers_start_empty dwid awid 32 pg 0 h0).1 h0e
+    subst e0
+    obtain ⟨_, _, hr⟩ := loc_unique_in_range_with_reserved (32 / 8 * 2 ^ awid / pg) true reserved h ops hh
+    intro p hp
+    obtain ⟨h0', h1'⟩ := hr p hp
+    obtain ⟨k, hk⟩ := Int.eq_ofNat_of_zero_le h0'
+    refine ⟨k, hk, ?_⟩
+    intro x a b
+    have hkn : k < 32 / 8 * 2 ^ awid / pg := by
+      rw [hk] at h1'
+      exact_mod_cast h1'
+    exact (csr_page_inside_csr_region awid pg base k x hkn a b).1
+
+/-- … and in no other slave's region: in any bus built by any call history that contains the `csr` region of
+    `add_csr_bridge`, no address of a grantable CSR page lies in the decoded window of another non-linker region
+    (a slave requested inside the CSR window is refused). -/
+theorem csr_pages_in_no_other_region [AutoNames ν] (aw dw : Nat) (ops : List (BusOp ν)) (awid pg base k x : Nat)
+    (c n : ν) (r : Region) (hk : k < 32 / 8 * 2 ^ awid / pg) (hx0 : base + pg * k ≤ x) (hx1 : x < base + pg * (k + 1)) :
+    let s := ({ aw := aw, dw := dw } : BusH ν).run ops
+    (c, csrRegion base awid) ∈ s.regions → (n, r) ∈ s.regions → n ≠ c → r.linker = false → ¬ r.InWindow x := by
+  intro s hc hn hne hl hin
+  have hd := (regions_disjoint_inv aw dw ops).2.1 c (csrRegion base awid) n r hc hn (Ne.symm hne) rfl hl
+  exact hd x ⟨(csr_page_inside_csr_region awid pg base k x hk hx0 hx1).2, hin⟩
+
+/-- Non-vacuity and the seeded-change scenario (8-bit CSR bus, 14-bit CSR address, paging 0x800: 32 pages in a
+    64 KiB window whatever the data width): page 31 is granted; with a RAM at `csr_base + 0x4000` (inside the window,
+    behind a window that were computed as `2^14·8/8`) the `csr` slave of `add_csr_bridge` is refused at finalize;
+    a RAM right behind the window is fine. -/
+example :
+    ((csrHandlerR Nat 8 14 32 0x800 [(1, 31)]).map fun h => (h.nLocs, h.locs)) = .ok (32, [(1, 31)]) ∧
+    csrRegion 0xf0000000 14 = ⟨0xf0000000, 0x10000, false, false, true⟩ ∧
+    (({ aw := 32, dw := 32 } : BusH Nat).verdicts (csrBus 0xf0000000 14 (some (0xf0004000, 0x1000))))
+      = [none, none, some .overlap] ∧
+    (({ aw := 32, dw := 32 } : BusH Nat).run (csrBus 0xe0000000 14 (some (0xe0010000, 0x1000)))).regionOf 0
+      = some (csrRegion 0xe0000000 14) ∧
+    (({ aw := 32, dw := 32 } : BusH Nat).verdicts (csrBus 0xe0000000 14 (some (0xe0010000, 0x1000))))
+      = [none, none, none] := by decide +kernel
+
 /-! ## CSR banks at `SoC.finalize` -/
 
 /-- Whatever CSR handler a design has built up (any `n_locs`, reserved pages, any history of location requests),
@@ -685,6 +758,35 @@ theorem cm_no_shared_pin (io : List Res) (ops : List CmOp) (pins : Nat × Option
     intro r hr
     exact hsubs r (hp'.subset (List.mem_append_right _ hr))
   exact hn.imp (fun {a b} hab => hpins a b hab)
+
+/-- Isolation of manager instances: two managers built from the same io list (`ConstraintManager.__init__`
+    copies it) never influence each other — after any interleaved history, each instance is in the state its own
+    calls alone produce.  (Trivial for a functional model; the point is the tie: the harness builds several real
+    managers/platforms from ONE list object and compares each with this model and with a manager built alone.) -/
+theorem cm_instances_isolated (a b : Cm) (ops : List (Bool × CmOp)) :
+    (Cm.run2 a b ops).1 = a.run (Cm.callsOn false ops) ∧ (Cm.run2 a b ops).2 = b.run (Cm.callsOn true ops) := by
+  induction ops generalizing a b with
+  | nil => exact ⟨rfl, rfl⟩
+  | cons t ops ih =>
+    obtain ⟨i, op⟩ := t
+    cases i with
+    | true =>
+      have := ih a (b.apply op).1
+      simpa [Cm.run2, Cm.callsOn, Cm.run] using this
+    | false =>
+      have := ih (a.apply op).1 b
+      simpa [Cm.run2, Cm.callsOn, Cm.run] using this
+
+/-- Non-vacuity: the board-file scenario — the first platform extends its table and requests, the second one,
+    built afterwards from the same list, still sees exactly the original table. -/
+example :
+    let io : List Res := [⟨0, 1, 0, []⟩, ⟨1, 1, 1, []⟩]
+    let ops : List (Bool × CmOp) := [(false, .extend [⟨7, 1, 0, []⟩] false), (false, .request 1 (some 0) false),
+      (true, .request 1 (some 0) false), (true, .request 1 (some 0) false)]
+    ((Cm.run2 { available := io } { available := io } ops).1.available.map (·.uid),
+     (Cm.run2 { available := io } { available := io } ops).2.available.map (·.uid),
+     (Cm.run2 { available := io } { available := io } ops).2.matched.map (·.uid)) = ([1, 7], [1], [0]) := by
+  decide +kernel
 
 /-- Non-vacuity: a table with a duplicate-free `led` bank and a record resource; double requests fail, the
     loose one returns nothing, `request_all` takes what is left, lookups see only granted entries. -/
